@@ -589,15 +589,18 @@ def enumSettings : P (Str × Option Str) := do
     let cm ← cOpt
     pure (t, cm))
 
-/-- `enum_item` and `parse_enum_item` (a trailing comment is read from the settings only) -/
+/-- `enum_item` and `parse_enum_item`: the comment after the settings, else the one after the
+    name, else the ones above -/
 def enumItem : P EnumItemBp := do
   let before ← cBefore
   let nm ← name
-  let _c1 ← cOpt
+  let c1 ← cOpt
   let st ← opt enumSettings
   let comment := match st with
     | some (_, some x) => some x
-    | _ => joinBefore before
+    | _ => match c1 with
+      | some x => some x
+      | none => joinBefore before
   pure { name := nm, note := st.map (·.1), comment := comment }
 
 /-- `enum_name = Combine(name("schema") + '.' + name("name")) | name("name")` -/
